@@ -82,6 +82,8 @@ type Verdict struct {
 	Fired        map[string]int `json:"fired,omitempty"`
 	Probes       map[string]int `json:"probes,omitempty"`
 	Nontrivial   bool           `json:"nontrivial"`
+	FPs          []uint64       `json:"-"`     // when set: the distinct non-trivial items of this run (instead of the schedule fingerprint)
+	Evals        int            `json:"evals"` // when set: evaluations this run stands for (instead of 1)
 	OpsDone      int            `json:"ops_done"`
 	Sample       []string       `json:"sample,omitempty"`
 	Trace        []string       `json:"trace,omitempty"`
